@@ -164,9 +164,19 @@ def generate(ctx, cfgs, quick_n):
     """cfgs: list of (cfg, kwargs, keep_all). Histories of keep_all configurations are all replayed; the others are
     sampled (stratified, seeded) down to quick_n in the quick tier."""
     keep, pool = [], []
+    only = os.environ.get("VERIF_INCR_CFGS")       # (development knob: restrict to some configurations)
+    if only:
+        cfgs = [c for c in cfgs if c[0] in only.split(",")]
     for cfg, kw, keep_all in cfgs:
         r = vlib.tlc(ctx, "Incremental", cfg, timeout=1500, **kw)
-        (keep if keep_all else pool).extend(r.behaviours)
+        bs = r.behaviours
+        if keep_all is not True and keep_all is not False:
+            # an integer: all histories in the thorough tier, a seeded sample of that size in the quick tier
+            if ctx.quick and len(bs) > keep_all:
+                bs = sorted(bs, key=lambda b: json.dumps(b, sort_keys=True))
+                bs = random.Random(ctx.seed).sample([b for b in bs if nontrivial(b)], keep_all)
+            keep_all = True
+        (keep if keep_all else pool).extend(bs)
 
     def uniq(bs):
         seen, out = set(), []
@@ -275,6 +285,7 @@ def run_c01(ctx):
                 "quick: seeded sample; non-trivial = contains an edit or plz-out deletion between two builds; distinct by full history + options")
     # quick: every history with one edit (incl. no-op rebuilds before and after it) + a sample of two-edit ones
     cfgs = [("GEN_Incremental_1.cfg", {}, True), ("GEN_Incremental_dir1.cfg", {}, True), ("GEN_Incremental_ren1.cfg", {}, True),
+            ("GEN_Incremental_post1.cfg", {}, True),
             ("GEN_Incremental.cfg", {}, False), ("GEN_Incremental_dir.cfg", {}, False)]
     if not ctx.quick:
         cfgs += [("GEN_Incremental_ren2.cfg", {}, False)]
@@ -298,7 +309,7 @@ def run_c02(ctx):
     ctx.rule = ("histories of Incremental.tla with UseCache=TRUE (edits, plz-out deletion, A->B->A content moves), each replayed with dircompress off and on and a sample with the command cache; "
                 "non-trivial = edit or plz-out deletion between two builds; distinct by history + cache mode")
     cfgs = [("GEN_Incremental_cache1.cfg", {}, True), ("GEN_Incremental_rencache1.cfg", {}, True), ("GEN_Incremental_dircache.cfg", {}, True),
-            ("GEN_Incremental_cache.cfg", {}, False)]
+            ("GEN_Incremental_postcache.cfg", {}, 40), ("GEN_Incremental_cache.cfg", {}, False)]
     layer_items = None
     if ctx.replay_only is not None:
         layer_items = [d for d in ctx.replay_only if d.get("layers")]
@@ -327,6 +338,7 @@ def run_c03(ctx):
     ctx.rule = ("histories of Incremental.tla (as C01) replayed e2e; the set of commands started per invocation is read from the action log; "
                 "non-trivial = edit or plz-out deletion between two builds")
     cfgs = [("GEN_Incremental_1.cfg", {}, True), ("GEN_Incremental_dir1.cfg", {}, True), ("GEN_Incremental_ren1.cfg", {}, True),
+            ("GEN_Incremental_post1.cfg", {}, True),
             ("GEN_Incremental.cfg", {}, False)]
     if not ctx.quick:
         cfgs += [("GEN_Incremental_dir.cfg", {}, False), ("GEN_Incremental_ren2.cfg", {}, False)]
